@@ -39,7 +39,13 @@ type c04Step struct {
 	// sendrecv or sendonly (read from the SDP text by the harness): the description no longer matches the
 	// transceiver, so the call is a change that requires renegotiation
 	RTSending bool `json:"rt_sending,omitempty"`
+	// DCNeeds (CreateDataChannel only): X's current local description had no application section (or there was
+	// none yet): the new channel has to be negotiated
+	DCNeeds bool `json:"dc_needs,omitempty"`
 }
+
+// c04CfgAlwaysDC as the first element of a history: X is configured with AlwaysNegotiateDataChannels.
+const c04CfgAlwaysDC = "cfg:always-negotiate-data-channels"
 
 // c04SectionSends reports whether the m-section with the given mid in an SDP text carries a=sendrecv or a=sendonly.
 func c04SectionSends(sdpText, mid string) bool {
@@ -79,7 +85,13 @@ func c04Run(t *testing.T, hist []string) (*c04Obs, *vsched.Result) {
 	body := func() {
 		vsched.SetBranching(false)
 		api := vNewAPI(t, vAPIOpts{})
-		x := vNewPC(t, api, nil)
+		var xcfg *Configuration
+		if len(hist) > 0 && hist[0] == c04CfgAlwaysDC {
+			// X negotiates an application section in every offer, data channel or not
+			xcfg = &Configuration{AlwaysNegotiateDataChannels: true}
+			hist = hist[1:]
+		}
+		x := vNewPC(t, api, xcfg)
 		p := vNewPC(t, vNewAPI(t, vAPIOpts{}), nil)
 		if _, err := p.AddTransceiverFromKind(RTPCodecTypeAudio); err != nil {
 			vkit.Fatalf(t, "p transceiver: %v", err)
@@ -129,6 +141,14 @@ func c04Run(t *testing.T, hist []string) (*c04Obs, *vsched.Result) {
 			case "TK":
 				_, err = x.AddTransceiverFromKind(RTPCodecTypeVideo, RTPTransceiverInit{Direction: RTPTransceiverDirectionRecvonly})
 			case "DC":
+				// the call requires renegotiation when X's current local description (if any) has no application
+				// section (read from the SDP text)
+				// (the description that will be current once the exchange in flight completes: the pending one if any)
+				cur := x.PendingLocalDescription()
+				if cur == nil {
+					cur = x.CurrentLocalDescription()
+				}
+				st.DCNeeds = cur == nil || !strings.Contains(cur.SDP, "\r\nm=application ")
 				_, err = x.CreateDataChannel(fmt.Sprintf("d%d", i), nil)
 			case "XO":
 				if before != SignalingStateStable || closed {
@@ -330,12 +350,8 @@ func c04Judge(hist []string, o *c04Obs) [][2]string {
 	// 3. liveness: after AddTrack / AddTransceiver / first CreateDataChannel / RemoveTrack of a sender whose section
 	// the current local description announces as sending, it fires once the connection is stable (an AddTrack after
 	// such a RemoveTrack may take the transceiver back into use and withdraw the need)
-	firstDC := true
 	for i, s := range o.Steps {
-		needs := (s.Op == "AT" || s.Op == "ATv" || s.Op == "TK" || (s.Op == "DC" && firstDC) || (s.Op == "RT" && s.RTSending)) && s.Err == ""
-		if s.Op == "DC" && s.Err == "" {
-			firstDC = false
-		}
+		needs := (s.Op == "AT" || s.Op == "ATv" || s.Op == "TK" || (s.Op == "DC" && s.DCNeeds) || (s.Op == "RT" && s.RTSending)) && s.Err == ""
 		if !needs {
 			continue
 		}
@@ -432,7 +448,12 @@ func TestVerifC04(t *testing.T) {
 
 		return
 	}
-	frontier := [][]string{{}}
+	c04Tree(t, c, [][]string{{}}, depth, "")
+	// the same tree, one level shallower, with X configured to negotiate an application section always
+	c04Tree(t, c, [][]string{{c04CfgAlwaysDC}}, depth-1, "always-dc|")
+}
+
+func c04Tree(t *testing.T, c *vkit.Check, frontier [][]string, depth int, tag string) {
 	for d := 1; d <= depth; d++ {
 		var jobs [][]string
 		for _, h := range frontier {
@@ -463,7 +484,7 @@ func TestVerifC04(t *testing.T) {
 			}
 			next = append(next, jobs[i])
 			last := o.Steps[len(o.Steps)-1]
-			c.State(fmt.Sprintf("%s|fires=%d|senders=%d", last.State, len(o.Fires), strings.Count(strings.Join(jobs[i], " "), "AT")))
+			c.State(fmt.Sprintf(tag+"%s|fires=%d|senders=%d", last.State, len(o.Fires), strings.Count(strings.Join(jobs[i], " "), "AT")))
 			c.Distinct(fmt.Sprintf("%v|%d", jobs[i], len(o.Fires)))
 			c.Outcome(fmt.Sprintf("%s|%d", last.State, len(o.Fires)))
 			for _, v := range c04Judge(jobs[i], o) {
@@ -474,6 +495,6 @@ func TestVerifC04(t *testing.T) {
 			}
 		}
 		frontier = next
-		c.Set(fmt.Sprintf("histories_depth_%d", d), len(next))
+		c.Set(fmt.Sprintf(tag+"histories_depth_%d", d), len(next))
 	}
 }
